@@ -31,7 +31,7 @@ add("C18", "exploration",
 
 STORE_NOTE = "Oracle = in-memory reference event store written from the property statements; generators stay inside what callers produce (partition id = key hash % partitions). Histories are single-client (plus batches of concurrently submitted appends); see C15/C16/C20 for real concurrency."
 add("C01", "exploration",
-    "Model-based stateful testing of the embedded database: generated configurations and histories (appends incl. failing multi-event ones, batches, rollovers, reopens). Immediately after every acknowledgement the fsync ledger (hook H1) must cover the transaction and event lookup / transaction lookup / stream scan / partition scan must return every event field-for-field; the same for every acknowledged transaction after each reopen and at the end.",
+    "Model-based stateful testing of the embedded database: generated configurations and histories (appends incl. failing multi-event ones, batches, rollovers, reopens). Immediately after every acknowledgement the fsync ledger (hook H1) must cover the transaction and event lookup / transaction lookup / stream scan / partition scan must return every event field-for-field; the same for every acknowledged transaction after each reopen and at the end. In half of the cases every reopen also opens and audits a snapshot of the directory taken at the moment Database::shutdown() returns (what a process that exits then leaves behind), with the background index flush delayed through hook H6.",
     STORE_NOTE + " The fsync ledger trusts seglog::Writer to report what it fsynced.",
     "stateful property-based testing against a reference model + fsync-ledger invariant (hook)", "§4 C01")
 add("C02", "exploration",
@@ -56,7 +56,7 @@ add("C05", "fault_enumeration",
     "Process-crash model: a prefix of the written bytes survives (no reordering). Tails that roll over are not cut. The expected prefix accounts for bytes the base state already holds (pre-allocated zeros or leftovers of failed appends).",
     "crash-point enumeration over generated histories with a reference-model oracle", "§4 C05")
 add("C06", "fault_enumeration",
-    "For generated histories with rollovers, the three index files of a sealed segment are put into crash states (empty, header only, prefix inside MPHF / records / values, all but one byte, complete) in tape-chosen combinations (and every single-file state per file in the thorough tier); the database must reopen and pass the full audit. All damaged states currently fail and are listed as known findings by symptom (open fails / reads fail / scans silently skip events); complete states must pass.",
+    "For generated histories with rollovers, the three index files of a sealed segment are put into crash states (empty, header only, prefix inside MPHF / records / values, all but one byte, complete) in tape-chosen combinations (and every single-file state per file in the thorough tier); the database must reopen and pass the full audit. Every case first opens the control (all three files complete), which must pass; damaged states currently fail and are listed as known findings by symptom (open fails with an index file empty or cut inside header/MPHF / reads fail / scans silently skip events) - any other way of failing has its own signature and is reported.",
     "Index prefixes are sampled, not every byte. The sealed data file is assumed complete (fsynced before rollover).",
     "fault enumeration over index-file states with a reference-model oracle", "§4 C06")
 
@@ -86,9 +86,9 @@ add("C14", "exploration",
     "Managers are driven directly (no libp2p transport); ownership responses are rebuilt exactly as on_node_connected builds them because the message type is crate-private.",
     "enumeration + stateful property-based testing with a pairwise-agreement invariant", "§4 C14")
 add("C26", "exploration",
-    "The breaker is driven by 1-3 real threads under a harness-owned schedule: hook H4 replaces its clock and doubles as the yield point, so the tape decides every thread switch (before each operation and at each clock read inside the breaker) and every clock advance. Oracles: no panic, Closed->Open only with at least failure_threshold failures in flight or completed since the last completed success, at most half_open_max_calls admissions per half-open episode including the transition call.",
-    "Only the windows at operation boundaries and clock reads are interleaved (that is where every racy load of the breaker sits); atomic sequences between them run uninterrupted.",
-    "property-based testing over harness-owned thread schedules (deterministic, shrinkable interleavings) with invariant oracles", "§4 C26")
+    "The breaker is driven by 1-3 real threads under a harness-owned schedule: hook H4 replaces its clock and doubles as the yield point, and adds named scheduling points after each state change inside a transition, so the tape decides every thread switch (before each operation, at each clock read, and - in half of the cases - between two atomic steps of a transition) and every clock advance. Oracles: no panic; a Closed->Open step needs at least failure_threshold record_failure calls that can have taken effect after the begin of the latest completed record_success (operations may take effect anywhere inside their interval; the most permissive placement is used, so no legal linearisation is reported); per half-open episode at most half_open_max_calls admissions, counting the call that performs the Open->HalfOpen transition.",
+    "Schedules of 1-3 threads and up to 40 operations. Two violations that need a switch between two atomic steps are listed known findings (signature suffix needs-switch-between-atomic-steps); violations reachable with coarser switches keep the plain signature and are reported.",
+    "property-based testing over harness-owned thread schedules (deterministic, shrinkable interleavings) with invariant oracles", "§4 C26, §10.4")
 
 add("C21", "exploration",
     "Grammar-based generation of every documented command form (optional clauses in any allowed order, 1-4 streams/partitions/events, keyword case, boundary identifiers and numbers, every string/number frame variant) together with the request each denotes; the real command builders of sierradb-client executed against a capturing connection; and single-mutation near misses (missing value, malformed value, duplicated clause, trailing token, wrong frame type). The server's own parsers must return exactly the denoted request, respectively an error.",
